@@ -22,12 +22,16 @@ CLAIMED = {
  "C15": dict(engine="e1-stepspace + e2-battles", design="4/C15",
    text="A recording listener and the bundled StateRecorder are attached to every step of the step spaces and every cycle of the enumerated battles (including Reset in mid-battle): addresses < M, valid warrior index, task pop announces the queue front before the task runs, changed cells (from core snapshots taken at every pop) are a subset of reported mutations which are a subset of the cells the reference step may touch, terminate reports iff deaths, recorder state equals the last-operation fold of the reference event stream.",
    technique="explicit-state enumeration with per-task report-stream oracle against the reference event stream"),
+ "C07": dict(engine="e4-asm", design="4/C07",
+   text="Grammar-directed exhaustive enumeration of expression trees (all shapes/operators/literals up to 2 operators with every sign run on every operand, bounded sign deviations up to 4 operators, redundant parentheses, spacing, EQU-carried signs) in five contexts (operand, FOR count, ORG, END, ;assert) and four core sizes; every assembled field / accept-reject decision is compared with an exact big-integer evaluation of the tree; predefined constants under six configurations.",
+   technique="bounded exhaustive grammar enumeration + independent big-integer reference evaluator"),
 }
 
 PENDING = {
 }
 
 ENGINES = [
+ {"name": "e4-asm", "path": "/verif/mc/engines/e4", "serves_properties": ["C03", "C06", "C07", "C08"], "kind_free_text": "grammar-directed exhaustive generation of assembler inputs with by-construction meaning"},
  {"name": "e2-battles", "path": "/verif/mc/engines/e2", "serves_properties": ["C02", "C12", "C04", "C15"], "kind_free_text": "explicit-state enumeration of whole battles against the reference scheduler; placement differential; configuration boundary product"},
  {"name": "e1-stepspace", "path": "/verif/mc/engines/e1", "serves_properties": ["C01", "C11", "C04", "C15"], "kind_free_text": "explicit-state enumeration of single-step states against the reference step"},
 ]
